@@ -5,6 +5,8 @@ From Coq Require Import List ZArith Bool.
 Import ListNotations.
 From Zn.model Require Import Decode FormatNum TextOps Format.
 From Zn.proofs Require Import DecodeProofs TextOpsProofs FormatProofs FormatNumProofs.
+From Zn.model Require CollectionsTypes Collections.
+From Zn.proofs Require Import SplitJoinProofs.
 Open Scope Z_scope.
 
 (* ---------------- Part A: text operations ------------------------------------------------ *)
@@ -64,6 +66,15 @@ Theorem C14_split_spec : forall s sep, Forall scalar s -> Forall scalar sep -> s
              ps <> [] /\ join_sep sep ps = s /\ Forall (fun p => contains p sep = false) ps.
 Proof. exact split_spec. Qed.
 Print Assumptions C14_split_spec.
+
+(* 分隔 then 拼接 with the same separator gives back the text: for every text and every non-empty separator the pieces,
+   handed as a list of texts to the list model's 拼接 (model/Collections.v, C12), join to exactly the original *)
+Theorem C14_split_then_join : forall s sep, Forall scalar s -> Forall scalar sep -> sep <> [] ->
+  exists ps, split_cps s sep = SOk ps /\
+    Collections.arr_step true (CollectionsTypes.LMethod CollectionsTypes.MJoin [CollectionsTypes.VStr sep]) (map CollectionsTypes.VStr ps)
+    = (CollectionsTypes.Ok (CollectionsTypes.VStr s), map CollectionsTypes.VStr ps).
+Proof. exact split_then_join. Qed.
+Print Assumptions C14_split_then_join.
 
 Theorem C14_split_empty_separator : forall s, Forall scalar s ->
   str_exec_split (encode_all s) [] = SOk (str_get_char_array (encode_all s)).
